@@ -194,11 +194,19 @@ type hjConn struct {
 	net.Conn
 	buf       bytes.Buffer
 	failWrite bool // the peer is gone: every write fails
+	failAfter int  // failWrite only: this many bytes are still taken first
 }
 
 func (c *hjConn) Write(p []byte) (int, error) {
 	if c.failWrite {
-		return 0, errDst
+		if c.failAfter >= len(p) {
+			c.failAfter -= len(p)
+			return c.buf.Write(p)
+		}
+		n := c.failAfter
+		c.failAfter = 0
+		c.buf.Write(p[:n])
+		return n, errDst
 	}
 	return c.buf.Write(p)
 }
@@ -263,6 +271,9 @@ func init() {
 			return "SKIP:net/http"
 		}
 		conn := &hjConn{failWrite: true}
+		if len(a) > 2 {
+			conn.failAfter, _ = strconv.Atoi(a[2]) // the connection breaks after this many bytes of the response
+		}
 		_, _, _, err = c.hu.Upgrade(req, &hjWriter{conn: conn, h: http.Header{}})
 		return fmt.Sprintf("%s written=%d", hsErrClass2(err), conn.buf.Len())
 	}
@@ -563,6 +574,14 @@ func genHsCut(tier string, r *rng) {
 				run(fmt.Sprintf("up - %s %d %s", hx(req[:l]), k, fin))
 			}
 		}
+	}
+	// the net/http entry point: the hijacked connection breaks after k bytes of the response, every k below its
+	// length (129 bytes for the plain request) - a handshake whose response did not go out is not a success
+	for k := 0; k < 129; k++ {
+		if tier == "quick" && k%8 != 0 && k < 120 {
+			continue
+		}
+		run(fmt.Sprintf("hupw - %s %d", hx(reqs[0]), k))
 	}
 	// the client side: a valid 101 (optional headers AFTER the mandatory ones, CRLF and LF) cut at every offset -
 	// the handshake is an error until the blank line has arrived
